@@ -42,7 +42,16 @@ Inductive expr :=
 | ECountOf (e : expr)                           (* e.count() *)
 | ENot (e : expr)                               (* !e *)
 | ESnap (m b : expr)                            (* the pair (m, b) returned by count_children *)
-| EMergeNec (a b : expr).                       (* merge_necessity(a, b) on attribute lists: the model
+| EMergeNec (a b : expr)
+| EIsEmpty (e : expr)                           (* e.is_empty() on a Vec *)
+| EAnd (a b : expr)                             (* a && b (lazy) *)
+| EStr (l : str)                                (* "literal" *)
+| EFindChar (e : expr) (c : chr)                (* e.find('c'): index of the first occurrence *)
+| ESliceToIncl (e i : expr)                     (* &e[..(i + 1)]: the prefix up to and including index i
+                                                   (indices count characters here, bytes in Rust: the
+                                                   prefix ends after a one-byte character found by
+                                                   `find`, so the two agree) *)
+| EStrEq (a b : expr).                       (* merge_necessity(a, b) on attribute lists: the model
                                                    function, which Properties/C15rs.v proves to be what
                                                    the source of merge_necessity computes *)
 
@@ -77,7 +86,8 @@ Inductive val :=
 | VNone | VSomeChild (c : nec * element) | VSomeNat (n : nat)
 | VCount (k : N) | VSomeCount (k : N)         (* u32 / Option<&u32> *)
 | VMap (m : list (str * N))                   (* HashMap<String, u32> as the sequence of its inserts *)
-| VSnap (m : list (str * N)) (b : bool).      (* (HashMap<String, u32>, bool) *)
+| VSnap (m : list (str * N)) (b : bool)       (* (HashMap<String, u32>, bool) *)
+| VSomeText.                                  (* Some(text): the model keeps only whether there is text *)
 
 Definition env := list (string * val).
 
@@ -102,6 +112,7 @@ Definition get_field (v : val) (f : string) : option val :=
       else if String.eqb f "standalone" then Some (VBool (estandalone e))
       else if String.eqb f "position" then Some (match epos e with Some n => VSomeNat n | None => VNone end)
       else if String.eqb f "count" then Some (VCount (ecount e))
+      else if String.eqb f "text" then Some (if etext e then VSomeText else VNone)
       else None
   | _ => None
   end.
@@ -171,12 +182,12 @@ Section Eval.
     | EIsSome a =>
         match eval a en with
         | Some (VNone, en1) => Some (VBool false, en1)
-        | Some (VSomeChild _, en1) | Some (VSomeNat _, en1) => Some (VBool true, en1)
+        | Some (VSomeChild _, en1) | Some (VSomeNat _, en1) | Some (VSomeText, en1) => Some (VBool true, en1)
         | _ => None end
     | EIsNone a =>
         match eval a en with
         | Some (VNone, en1) => Some (VBool true, en1)
-        | Some (VSomeChild _, en1) | Some (VSomeNat _, en1) => Some (VBool false, en1)
+        | Some (VSomeChild _, en1) | Some (VSomeNat _, en1) | Some (VSomeText, en1) => Some (VBool false, en1)
         | _ => None end
     | ELen a =>
         match eval a en with
@@ -331,6 +342,40 @@ Section Eval.
             match eval b en1 with
             | Some (VAttrs l2, en2) => Some (VAttrs (merge_necessity str_eqb l1 l2), en2)
             | _ => None end
+        | _ => None end
+    | EIsEmpty a =>
+        match eval a en with
+        | Some (VChildren l, en1) => Some (VBool (is_nil l), en1)
+        | Some (VAttrs l, en1) => Some (VBool (is_nil l), en1)
+        | Some (VEmptyVec, en1) => Some (VBool true, en1)
+        | _ => None end
+    | EAnd a b =>
+        match eval a en with
+        | Some (VBool false, en1) => Some (VBool false, en1)
+        | Some (VBool true, en1) => match eval b en1 with
+                                    | Some (VBool y, en2) => Some (VBool y, en2) | _ => None end
+        | _ => None end
+    | EStr l => Some (VName l, en)
+    | EFindChar a c =>
+        match eval a en with
+        | Some (VName x, en1) =>
+            Some ((fix find (l : str) (i : nat) : val :=
+                     match l with
+                     | [] => VNone
+                     | d :: r => if (d =? c)%N then VSomeNat i else find r (S i)
+                     end) x O, en1)
+        | _ => None end
+    | ESliceToIncl a i =>
+        match eval a en with
+        | Some (VName x, en1) =>
+            match eval i en1 with
+            | Some (VNat n, en2) => if Nat.ltb n (List.length x) then Some (VName (firstn (S n) x), en2) else None
+            | _ => None end
+        | _ => None end
+    | EStrEq a b =>
+        match eval a en with
+        | Some (VName x, en1) => match eval b en1 with
+                                 | Some (VName y, en2) => Some (VBool (str_eqb x y), en2) | _ => None end
         | _ => None end
     end.
 
